@@ -109,6 +109,7 @@ class Monitor:
         self.terms_with_leader = set()
         self.longer_peer = False     # some node became leader while a peer held a longer log
         self.n_deliver = 0
+        self.prev_conflicts = 0
         self.stale_acks = 0        # success acks of an earlier term delivered to a leader (label / target only)
         self.n_crashed_drop = 0
 
@@ -122,14 +123,11 @@ class Monitor:
             self.last_applied[x.name] = 0
 
     def add(self, clause, detail, code=None):
-        """A mechanism-level clause (or a clause that is its own root cause). ``code``: short name under which
-        later consequences in the same history are filed."""
-        earlier = self.causes - {code}
+        """A mechanism-level clause judged from one node's own transition and the message it processed (so nothing
+        that happened elsewhere can explain it): always its own plain signature, also while other findings are open.
+        ``code``: short name under which later consequences in the same history are filed."""
         if code:
             self.causes.add(code)
-        if earlier:      # once one mechanism is broken, breaks of others may follow from it (e.g. two leaders of one
-            #              term make honest acks wrong): file them as consequences, like the statement clauses
-            clause = "consequence-of-" + "+".join(sorted(earlier)) + "/" + clause
         sig = f"{P}/{self.obl}/{clause}"
         if sig not in self.seen:
             self.seen.add(sig)
@@ -196,11 +194,12 @@ class Monitor:
                         flags["overclaim"] = True
                         k = next((i for i in range(min(m, len(mine), len(ls.ents))) if mine[i] != ls.ents[i]),
                                  min(m, len(mine), len(ls.ents)))
-                        self.add("r3-ack-match-index-beyond-verified-prefix",
+                        two = len(self.leaders.get(rec["term"], ())) > 1     # then honest acks can be wrong: consequence
+                        (self.derived if two else self.add)("r3-ack-match-index-beyond-verified-prefix",
                                  f"{src} answered AppendEntries(term {rec['term']}, prev {rec['prev']}, "
                                  f"{rec['n']} entries) of leader {dst} with match_index={m}, but its log "
                                  f"differs from the leader's at index {k + 1} "
-                                 f"(follower {mine[k:k + 1]}, leader {ls.ents[k:k + 1]})", code="overclaim")
+                                 f"(follower {mine[k:k + 1]}, leader {ls.ents[k:k + 1]})", **({} if two else {"code": "overclaim"}))
 
     def vote(self, voter, term, cand):
         lst = self.votes.setdefault((voter, term), [])
@@ -343,6 +342,8 @@ class Monitor:
         accept = term >= old.term
         if accept and prev_i > 0:
             accept = len(old.ents) >= prev_i and old.ents[prev_i - 1][0] == prev_t
+            if len(old.ents) >= prev_i and not accept:
+                self.prev_conflicts += 1       # the consistency check met an entry of another term (label / target)
         exp = list(old.ents)
         conflict = None
         if accept:
@@ -392,11 +393,14 @@ class Monitor:
                 cls = "stale-ack"
             else:
                 cls = "acked-entry-lost-by-follower"
-            self.add(f"r3-commit-without-majority-holding-entry/{cls}",
+            # explained by what happened elsewhere (an over-claiming ack, an entry lost again by a follower that had it):
+            # filed as a consequence; explained by this leader's own bookkeeping: plain
+            elsewhere = cls in ("overclaimed-ack", "acked-entry-lost-by-follower")
+            (self.derived if elsewhere else self.add)(f"r3-commit-without-majority-holding-entry/{cls}",
                      f"leader {name} term {new.term} committed index {n} {e}; logs holding it: {holders} "
                      f"(quorum {self.quorum}); acks it had: "
                      f"{ {f: (v[0], [k for k in ('overclaim', 'stale') if v[1].get(k)]) for f, v in sorted(told.items())} }",
-                     code=None if cls == "overclaimed-ack" else "commitrule")
+                     **({} if elsewhere else {"code": "commitrule"}))
 
     # ------------------------------------------------------------------ applies (called from inside handlers)
     def on_apply(self, name, command):
@@ -582,7 +586,9 @@ def ex_safety(obl):
         if mon.stale_acks:
             r.labels.append("stale-ack-delivered-to-leader")
         r.target = float(pairs + 2 * mon.leader_changes_after_commit + min(len(mon.committed), 5)
-                         + 3 * min(mon.stale_acks, 4))
+                         + 3 * min(mon.stale_acks, 4) + 3 * min(mon.prev_conflicts, 4))
+        if mon.prev_conflicts:
+            r.labels.append("consistency-check-met-conflicting-entry")
         r.observed = {"events": probe.n, "leaders": {str(k): v for k, v in sorted(mon.leaders.items())},
                       "committed": len(mon.committed), "submits": n_sub}
         return r
